@@ -11,6 +11,7 @@ import (
 	"github.com/mgtv-tech/redis-GunYu/pkg/rdb"
 	"github.com/mgtv-tech/redis-GunYu/pkg/redis/client"
 	"github.com/mgtv-tech/redis-GunYu/pkg/redis/client/common"
+	"github.com/mgtv-tech/redis-GunYu/pkg/redis/keyspec"
 	"github.com/mgtv-tech/redis-GunYu/pkg/util"
 )
 
@@ -182,6 +183,43 @@ func restoreOnce(cli client.Redis, e *rdb.BinEntry) (err error) {
 	return nil
 }
 
+// rewriteKeyArgs : the value's parser emits its commands with the key found in the snapshot ;
+// when the entry's key was rewritten (replaceHashTag) the key arguments must follow, else the
+// value is written under the old name while EXISTS / DEL / PEXPIRE address the new one
+func rewriteKeyArgs(cmd string, args []interface{}, sourceKey, targetKey []byte) []interface{} {
+	if len(sourceKey) == 0 || len(targetKey) == 0 || bytes.Equal(sourceKey, targetKey) {
+		return args
+	}
+	raw := make([][]byte, len(args))
+	for i, a := range args {
+		switch v := a.(type) {
+		case []byte:
+			raw[i] = v
+		case string:
+			raw[i] = []byte(v)
+		default:
+			raw[i] = []byte(fmt.Sprint(v))
+		}
+	}
+	indexes, ok := keyspec.CommandKeyIndexes(cmd, raw)
+	if !ok {
+		return args
+	}
+	rewritten := args
+	cloned := false
+	for _, idx := range indexes {
+		if idx < 0 || idx >= len(raw) || !bytes.Equal(raw[idx], sourceKey) {
+			continue
+		}
+		if !cloned {
+			rewritten = append([]interface{}(nil), args...)
+			cloned = true
+		}
+		rewritten[idx] = targetKey
+	}
+	return rewritten
+}
+
 func restoreBigRdbEntry(cli client.Redis, e *rdb.BinEntry) (err error) {
 	defer util.Xrecover(&err, ErrRestoreRdb)
 
@@ -190,7 +228,9 @@ func restoreBigRdbEntry(cli client.Redis, e *rdb.BinEntry) (err error) {
 	}
 
 	count := 0
+	sourceKey := e.ObjectParser.Key()
 	e.ObjectParser.ExecCmd(func(cmd string, args ...interface{}) error {
+		args = rewriteKeyArgs(cmd, args, sourceKey, e.Key)
 		err = cli.Send(cmd, args...)
 		if err != nil {
 			return err
